@@ -70,9 +70,19 @@ Proof.
   intros. cbn [agree]. induction (v_named vw) as [|[g ts] r IH]; cbn [forallb fst]; [reflexivity|]. rewrite <- IH. reflexivity.
 Qed.
 
-Lemma fragB_PGroup : forall gv es, fragB gv (PGroup es) = forallb (fun e => fragB gv e && elem_ok e) es.
+Lemma fragB_PGroup : forall gv es, fragB gv (PGroup es) = fragB_loop gv es [].
 Proof.
-  intros. cbn [fragB]. induction es as [|e r IH]; cbn [forallb]; [reflexivity|]. rewrite <- IH. reflexivity.
+  intros gv es. cbn [fragB].
+  match goal with |- ?f es ?a = _ => assert (H : forall es pacc, f es pacc = fragB_loop gv es pacc) end.
+  { clear es. induction es as [|e r IH]; intros pacc; cbn [fragB_loop]; [reflexivity|]. rewrite IH. reflexivity. }
+  apply H.
+Qed.
+
+Lemma fragB_loop_elems : forall gv es pacc, fragB_loop gv es pacc = true -> forall e, In e es -> fragB gv e = true.
+Proof.
+  intros gv es. induction es as [|e0 r IH]; intros pacc H e He; [contradiction|]. cbn [fragB_loop] in H.
+  apply andb_true_iff in H. destruct H as [H Hr]. apply andb_true_iff in H. destruct H as [H0 _].
+  destruct He as [He|He]; [subst; auto | eapply IH; eauto].
 Qed.
 
 Lemma fragB_PUnion : forall gv gs, fragB gv (PUnion gs) = forallb (fragB gv) gs.
@@ -329,6 +339,207 @@ Proof.
   - cbn [eval]. apply modifiers_wf. auto.
 Qed.
 
+(* ---- the variables a solution may bind are in scope ---- *)
+Lemma sposs_PGroup : forall es, sposs (PGroup es) = flat_map sposs es.
+Proof. intros. cbn [sposs]. induction es as [|e r IH]; cbn [flat_map]; [reflexivity | rewrite <- IH; reflexivity]. Qed.
+Lemma sposs_PUnion : forall es, sposs (PUnion es) = flat_map sposs es.
+Proof. intros. cbn [sposs]. induction es as [|e r IH]; cbn [flat_map]; [reflexivity | rewrite <- IH; reflexivity]. Qed.
+
+Definition bound_in (Pv : list var) (m : mu) : Prop := forall x w, lookup m x = Some w -> In x Pv.
+
+Lemma extend_bound : forall args v m Pv, bound_in Pv m -> bound_in (Pv ++ [v]) (extend args v m).
+Proof.
+  intros args v m Pv H x w L. apply in_or_app. unfold extend in L.
+  destruct (lookup m v) eqn:E; [left; eapply H; eauto|]. destruct (concat_args args m); [|left; eapply H; eauto].
+  rewrite lookup_insert in L. destruct (N.eqb_spec v x); [subst; right; left; auto | left; eapply H; eauto].
+Qed.
+
+Lemma loop_poss : forall vw es, Forall (fun e => forall active m, In m (eval vw active e) -> bound_in (sposs e) m) es ->
+  forall active G fs Pv, (forall m, In m G -> bound_in Pv m) ->
+  forall m, In m (eval_loop vw active es G fs) -> bound_in (Pv ++ flat_map sposs es) m.
+Proof.
+  intros vw es HP. induction HP as [|e r He Hr IH]; intros active G fs Pv HG m Hm; cbn [eval_loop flat_map] in *.
+  - rewrite app_nil_r. apply filter_In in Hm. apply HG. tauto.
+  - assert (Other : In m (eval_loop vw active r (join G (eval vw active e)) fs) -> bound_in (Pv ++ sposs e ++ flat_map sposs r) m).
+    { intro Hm'. rewrite app_assoc. eapply IH; eauto. intros m' H'. apply in_join in H'. destruct H' as (a & b & Ha & Hb & M).
+      intros x w L. rewrite (merge_rows_lookup _ _ _ x M) in L. apply in_or_app.
+      destruct (lookup a x) eqn:E; [left; eapply HG; eauto | right; eapply He; eauto]. }
+    destruct e; try (apply Other; exact Hm).
+    + cbn [sposs app]. eapply IH; eauto.
+    + cbn [sposs]. replace (Pv ++ [v] ++ flat_map sposs r) with ((Pv ++ [v]) ++ flat_map sposs r) by (rewrite <- app_assoc; reflexivity).
+      eapply IH; eauto. intros m' H'. apply in_map_iff in H'. destruct H' as (m0 & E & H0). subst. apply extend_bound. auto.
+Qed.
+
+Lemma in_order_rows : forall ob l m, In m (order_rows ob l) <-> In m l.
+Proof.
+  intros. split; intro H; [eapply Permutation_in; [apply order_rows_perm | exact H]
+                         | eapply Permutation_in; [apply Permutation_sym; apply order_rows_perm | exact H]].
+Qed.
+
+Lemma push_in : forall x l y, In y (push x l) <-> y = x \/ In y l.
+Proof.
+  intros x l y. unfold push. destruct (mem_var x l) eqn:E.
+  - apply mem_var_in in E. split; [auto | intros [H|H]; subst; auto].
+  - rewrite in_app_iff. cbn. intuition.
+Qed.
+
+Lemma star_cols_PGroup : forall es acc, star_cols (PGroup es) acc = fold_left (fun a e => star_cols e a) es acc.
+Proof. intros es. cbn [star_cols]. induction es as [|e r IH]; intros acc; cbn [fold_left]; [reflexivity | apply IH]. Qed.
+Lemma star_cols_PUnion : forall es acc, star_cols (PUnion es) acc = fold_left (fun a e => star_cols e a) es acc.
+Proof. intros es. cbn [star_cols]. induction es as [|e r IH]; intros acc; cbn [fold_left]; [reflexivity | apply IH]. Qed.
+
+Lemma star_cols_sposs_gen : forall p acc x, In x (star_cols p acc) -> In x acc \/ In x (sposs p).
+Proof.
+  induction p using pat_ind'; intros acc x Hx.
+  - cbn [star_cols sposs] in *. revert acc Hx. induction tps as [|[[s pr] o] r IH]; intros acc Hx; cbn [fold_left flat_map] in *; auto.
+    apply IH in Hx. destruct Hx as [Hx|Hx]; [|right; apply in_or_app; auto].
+    unfold tm_push in Hx.
+    assert (T : forall (t : tm) l, In x (match t with TV y => push y l | TC _ => l end) -> In x l \/ In x (tm_vars t)).
+    { intros [y|c] l H; cbn; [apply push_in in H; destruct H; [subst; right; left|]; auto | auto]. }
+    apply T in Hx. destruct Hx as [Hx|Hx]; [|right; apply in_or_app; left; unfold tp_vars; rewrite !in_app_iff; auto].
+    apply T in Hx. destruct Hx as [Hx|Hx]; [|right; apply in_or_app; left; unfold tp_vars; rewrite !in_app_iff; auto].
+    apply T in Hx. destruct Hx as [Hx|Hx]; [auto | right; apply in_or_app; left; unfold tp_vars; rewrite !in_app_iff; auto].
+  - rewrite star_cols_PGroup in Hx. rewrite sposs_PGroup. revert acc Hx.
+    induction H as [|e r He Hr IH]; intros acc Hx; cbn [fold_left flat_map] in *; auto.
+    apply IH in Hx. destruct Hx as [Hx|Hx]; [|right; apply in_or_app; auto].
+    apply He in Hx. destruct Hx; [auto | right; apply in_or_app; auto].
+  - rewrite star_cols_PUnion in Hx. rewrite sposs_PUnion. revert acc Hx.
+    induction H as [|e r He Hr IH]; intros acc Hx; cbn [fold_left flat_map] in *; auto.
+    apply IH in Hx. destruct Hx as [Hx|Hx]; [|right; apply in_or_app; auto].
+    apply He in Hx. destruct Hx; [auto | right; apply in_or_app; auto].
+  - cbn [star_cols sposs] in *. apply IHp in Hx. destruct Hx as [Hx|Hx]; [|right; apply in_or_app; auto].
+    destruct g as [y|c]; cbn in *; [apply push_in in Hx; destruct Hx; [subst; right; left|]; auto | auto].
+  - auto.
+  - cbn [star_cols sposs] in *. apply push_in in Hx. destruct Hx; [subst; right; left|]; auto.
+  - cbn [star_cols sposs] in *. revert acc Hx. induction vs as [|v r IH]; intros acc Hx; cbn [fold_left] in *; auto.
+    apply IH in Hx. destruct Hx as [Hx|Hx]; [|right; right; auto]. apply push_in in Hx. destruct Hx; [subst; right; left|]; auto.
+  - cbn [star_cols sposs] in *. destruct pr as [items|]; [|apply IHp; auto].
+    revert acc Hx. induction items as [|i r IH]; intros acc Hx; cbn [fold_left map] in *; auto.
+    apply IH in Hx. destruct Hx as [Hx|Hx]; [|right; right; auto].
+    destruct i; apply push_in in Hx; destruct Hx; [subst; right; left; auto | auto | subst; right; left; auto | auto].
+Qed.
+
+Lemma star_cols_sposs : forall p (acc : list var) x, In x (star_cols p []) -> In x (sposs p).
+Proof. intros p _ x H. apply star_cols_sposs_gen in H. destruct H as [[]|H]. exact H. Qed.
+
+Lemma sposs_star_cols : forall p acc x, In x acc \/ In x (sposs p) -> In x (star_cols p acc).
+Proof.
+  induction p using pat_ind'; intros acc x Hx.
+  - cbn [star_cols sposs] in *. revert acc Hx. induction tps as [|[[s pr] o] r IH]; intros acc Hx; cbn [fold_left flat_map] in *.
+    + destruct Hx as [Hx|[]]; auto.
+    + apply IH.
+      assert (T : forall (t : tm) l, In x l \/ In x (tm_vars t) -> In x (match t with TV y => push y l | TC _ => l end)).
+      { intros [y|c] l [H|H]; cbn in *; try (apply push_in); auto; try contradiction. destruct H as [H|[]]; subst; auto. }
+      destruct Hx as [Hx|Hx]; [left; unfold tm_push; apply T; left; apply T; left; apply T; left; exact Hx|].
+      apply in_app_or in Hx. destruct Hx as [Hx|Hx]; [left | right; exact Hx].
+      unfold tp_vars in Hx. rewrite !in_app_iff in Hx. unfold tm_push.
+      destruct Hx as [Hx|[Hx|Hx]].
+      * apply T; left; apply T; left; apply T; right; exact Hx.
+      * apply T; left; apply T; right; exact Hx.
+      * apply T; right; exact Hx.
+  - rewrite star_cols_PGroup. rewrite sposs_PGroup in Hx. revert acc Hx.
+    induction H as [|e r He Hr IH]; intros acc Hx; cbn [fold_left flat_map] in *.
+    + destruct Hx as [Hx|[]]; auto.
+    + apply IH. destruct Hx as [Hx|Hx]; [left; apply He; auto|]. apply in_app_or in Hx. destruct Hx; [left; apply He; auto | right; auto].
+  - rewrite star_cols_PUnion. rewrite sposs_PUnion in Hx. revert acc Hx.
+    induction H as [|e r He Hr IH]; intros acc Hx; cbn [fold_left flat_map] in *.
+    + destruct Hx as [Hx|[]]; auto.
+    + apply IH. destruct Hx as [Hx|Hx]; [left; apply He; auto|]. apply in_app_or in Hx. destruct Hx; [left; apply He; auto | right; auto].
+  - cbn [star_cols sposs] in *. apply IHp. destruct Hx as [Hx|Hx].
+    + left. destruct g; [apply push_in|]; auto.
+    + apply in_app_or in Hx. destruct Hx as [Hx|Hx]; [|right; auto]. left. destruct g as [y|c]; cbn in Hx; [|contradiction].
+      destruct Hx as [Hx|[]]. subst. apply push_in. auto.
+  - cbn [star_cols sposs] in *. destruct Hx as [Hx|[]]; auto.
+  - cbn [star_cols sposs] in *. apply push_in. destruct Hx as [Hx|[Hx|[]]]; auto.
+  - cbn [star_cols sposs] in *. revert acc Hx. induction vs as [|v r IH]; intros acc Hx; cbn [fold_left] in *.
+    + destruct Hx as [Hx|[]]; auto.
+    + apply IH. destruct Hx as [Hx|[Hx|Hx]]; [left; apply push_in; auto | left; apply push_in; auto | right; auto].
+  - cbn [star_cols sposs] in *. destruct pr as [items|]; [|apply IHp; auto].
+    revert acc Hx. induction items as [|i r IH]; intros acc Hx; cbn [fold_left map] in *.
+    + destruct Hx as [Hx|[]]; auto.
+    + apply IH. destruct Hx as [Hx|[Hx|Hx]]; [left | left | right; auto]; destruct i; apply push_in; auto.
+Qed.
+
+Lemma restrict_id : forall cols m, wf m -> bound_in cols m -> restrict cols m = m.
+Proof.
+  intros cols m W B. apply mu_ext; [apply wf_restrict; auto | auto |].
+  intros x. rewrite lookup_restrict. destruct (mem_var x cols) eqn:E; [reflexivity|].
+  destruct (lookup m x) eqn:L; [|reflexivity]. apply B in L. apply mem_var_in in L. congruence.
+Qed.
+
+Theorem eval_poss : forall vw p active m, In m (eval vw active p) -> bound_in (sposs p) m.
+Proof.
+  intros vw p. induction p using pat_ind'; intros active m Hm.
+  - cbn [eval sposs] in *. intros x w L.
+    assert (G : forall tps rows Pv, (forall m, In m rows -> bound_in Pv m) ->
+                forall m, In m (fold_left (fun rows p => flat_map (extend_tp (active_triples vw active) p) rows) tps rows) ->
+                          bound_in (Pv ++ flat_map tp_vars tps) m).
+    { clear. induction tps as [|p r IH]; intros rows Pv H m Hm; cbn [fold_left flat_map] in *; [rewrite app_nil_r; auto|].
+      rewrite app_assoc. eapply IH; eauto. intros m1 H1. apply in_flat_map in H1. destruct H1 as (m0 & H0 & H1).
+      unfold extend_tp in H1. apply in_flat_map in H1. destruct H1 as (t & _ & H1).
+      destruct (match_triple p t m0) eqn:E; cbn in H1; [|contradiction]. destruct H1 as [H1|[]]. subst.
+      intros x w L. apply in_or_app. destruct (match_triple_bound _ _ _ _ _ _ E L) as [L0|Hx]; [left; eapply H; eauto | right; auto]. }
+    apply (G tps [[]] [] (fun m0 H0 => match H0 with or_introl E => ltac:(subst; intros ? ? L0; discriminate) | or_intror F => match F with end end) m Hm x w L).
+  - rewrite eval_PGroup in Hm. rewrite sposs_PGroup. change (flat_map sposs es) with ([] ++ flat_map sposs es).
+    eapply loop_poss; eauto. intros m0 [H0|[]]. subst. intros x w L. discriminate.
+  - rewrite eval_PUnion in Hm. rewrite sposs_PUnion. apply in_flat_map in Hm. destruct Hm as (g & Hg & Hm).
+    rewrite Forall_forall in H. intros x w L. apply in_flat_map. exists g. split; auto. eapply H; eauto.
+  - destruct g as [x|c].
+    + rewrite eval_PGraph_var in Hm. cbn [sposs tm_vars app]. apply in_flat_map in Hm. destruct Hm as ([n ts] & _ & Hm).
+      cbn [fst] in Hm. apply in_join in Hm. destruct Hm as (b & s & Hb & Hs & M). destruct Hs as [Hs|[]]. subst s.
+      intros y w L. rewrite (merge_rows_lookup _ _ _ y M) in L. destruct (lookup b y) eqn:E; [right; eapply IHp; eauto|].
+      cbn in L. destruct (N.eqb_spec x y); [left; auto | discriminate].
+    + cbn [eval sposs tm_vars app] in *. destruct (graph_of (v_named vw) c); [|contradiction]. eapply IHp; eauto.
+  - cbn [eval] in Hm. apply filter_In in Hm. destruct Hm as [[Hm|[]] _]. subst. intros x w L. discriminate.
+  - cbn [eval] in Hm. destruct Hm as [Hm|[]]. subst. cbn [sposs]. change [v] with ([] ++ [v]). apply extend_bound.
+    intros x w L. discriminate.
+  - cbn [eval sposs] in *. apply in_map_iff in Hm. destruct Hm as (row & E & _). subst. intros x w L. eapply lookup_values_row; eauto.
+  - cbn [eval] in Hm. unfold modifiers, modifiers_nolimit, apply_limit in Hm.
+    set (cols := columns (Sel d pr p gb ob lim)) in *.
+    assert (H1 : In m (map (restrict cols) (order_rows ob (aggregate pr gb (eval vw active p))))).
+    { destruct lim as [n|]; [apply firstn_incl in Hm|]; (destruct d; [apply dedup_incl in Hm|]; exact Hm). }
+    apply in_map_iff in H1. destruct H1 as (m0 & E & H0). subst m.
+    intros x t L. rewrite lookup_restrict in L. destruct (mem_var x cols) eqn:Ex; [|discriminate]. apply mem_var_in in Ex.
+    destruct pr as [items|]; cbn [sposs]; [exact Ex|].
+    (* SELECT *: the columns are the variables of the pattern in order of first occurrence *)
+    unfold cols in Ex. cbn [columns] in Ex. exact (star_cols_sposs p [] x Ex).
+Qed.
+
+Lemma bound_join : forall Pv Qv (G E : list mu), (forall b, In b G -> bound_in Pv b) -> (forall b, In b E -> bound_in Qv b) ->
+  forall b, In b (join G E) -> bound_in (Pv ++ Qv) b.
+Proof.
+  intros Pv Qv G E HG HE b Hb. apply in_join in Hb. destruct Hb as (a & c & Ha & Hc & M).
+  intros x w L. rewrite (merge_rows_lookup _ _ _ x M) in L. apply in_or_app.
+  destruct (lookup a x) eqn:Ea; [left; eapply HG; eauto | right; eapply HE; eauto].
+Qed.
+
+Lemma bound_in_nil : forall Pv, bound_in Pv [].
+Proof. intros Pv x w L. discriminate. Qed.
+
+(* CONCAT of constants does not look at the row *)
+Lemma concat_const : forall args m m', barg_vars args = [] -> concat_args args m = Some (concat_strs args m').
+Proof.
+  induction args as [|a r IH]; intros m m' H; cbn [concat_args concat_strs]; [reflexivity|].
+  unfold barg_vars in H. cbn [flat_map] in H. destruct a as [y|c]; [discriminate|]. cbn [app] in H.
+  rewrite (IH m m') by exact H. reflexivity.
+Qed.
+
+(* joining with the one-row answer of { BIND(CONCAT(constants) AS ?v) } = binding ?v in every row, when no row binds ?v *)
+Lemma join_const_bind : forall args v G, barg_vars args = [] -> all_wf G -> (forall b, In b G -> lookup b v = None) ->
+  join G [extend args v []] = map (bind_row args v) G.
+Proof.
+  intros args v G Hc. rewrite join_unfold. unfold extend. cbn [lookup]. rewrite (concat_const args [] [] Hc). cbn [insert].
+  induction G as [|a G IH]; intros WG HG; cbn [flat_map map]; [reflexivity|].
+  inversion WG as [|? ? Wa WG']; subst.
+  rewrite IH by (auto; intros; apply HG; right; auto). f_equal.
+  unfold mjoin. cbn [flat_map]. rewrite app_nil_r.
+  assert (Hv : lookup a v = None) by (apply HG; left; auto).
+  assert (C : compatible a [(v, concat_strs args [])] = true).
+  { apply compatible_spec; [exact Wa|]. intros x s t Hs Ht. cbn in Ht. destruct (N.eqb_spec v x); [subst; congruence | discriminate]. }
+  unfold merge_rows. rewrite C. rewrite merge_single_insert by auto. cbn [opt_list]. unfold bind_row.
+  pose proof (concat_const args [] a Hc) as Q1. rewrite (concat_const args [] [] Hc) in Q1. inversion Q1 as [Q]. rewrite Q. reflexivity.
+Qed.
+
 (* ---- conjugation by a single row ---- *)
 Lemma merge_rows_sub : forall a m, wf a -> wf m -> sub_mu m a -> merge_rows a m = Some a.
 Proof.
@@ -510,49 +721,77 @@ Section Bridge.
 
   Lemma loop_lemma : forall scope active m, scope_rel ds ev scope active m ->
     forall es, Forall PB' es ->
-    forallb (fun e => fragB (gv_of scope) e && elem_ok e) es = true ->
+    forall pacc, fragB_loop (gv_of scope) es pacc = true ->
     forall G plan fs, all_wf G ->
+      (forall b, In b G -> bound_in pacc b) ->
       join [m] (sem ds ev active plan) ≡ₚ join [m] G ->
       forallb (fun f => gv_free (gv_of scope) (expr_vars f)) fs = true ->
       agree_loop vw active es G fs = true ->
       join [m] (sem ds ev active (lower_loop scope (flat_elems es) plan fs)) ≡ₚ join [m] (eval_loop vw active es G fs).
   Proof.
     intros scope active m SR. pose proof (scope_rel_wf _ _ _ _ _ SR) as Wm.
-    intros es HP. induction HP as [|e r He Hr IH]; intros FR G plan fs WG H GF AG.
+    intros es HP. induction HP as [|e r He Hr IH]; intros pacc FR G plan fs WG HB H GF AG.
     - cbn [flat_elems flat_map lower_loop eval_loop agree_loop] in *. rewrite sem_fold_sel.
       apply filters_lemma; auto.
       intros f y Hf Hy. rewrite forallb_forall in GF. eapply gv_free_lookup; eauto.
-    - cbn [forallb] in FR. apply andb_true_iff in FR. destruct FR as [FRe FR]. apply andb_true_iff in FRe. destruct FRe as [Fe Ee].
+    - cbn [fragB_loop] in FR. apply andb_true_iff in FR. destruct FR as [FRe FR]. apply andb_true_iff in FRe. destruct FRe as [Fe Ee].
       unfold flat_elems in *. cbn [flat_map]. fold (flat_elems r).
+      assert (Step : forall E, (forall b, In b E -> bound_in (sposs e) b) -> forall b, In b (join G E) -> bound_in (pacc ++ sposs e) b)
+        by (intros E HE; apply bound_join; auto).
       destruct e as [tps|es'|gs|g q|f|args v|vs rows|s].
       + (* a block of triple patterns *)
         cbn [elem_shape eval_loop agree_loop] in *. rewrite lower_loop_bgp.
         apply andb_true_iff in AG. destruct AG as [_ AG].
-        apply IH; auto.
+        apply (IH (pacc ++ sposs (PBgp tps))); auto.
         * apply join_wf; auto.
+        * apply Step. intros b Hb. eapply eval_poss; eauto.
         * eapply perm_trans; [apply bgp_fold; eauto|]. apply join_perm_r. apply join_perm_r.
           apply Permutation_sym. cbn [eval]. apply eval_bgp_bigjoin.
-      + cbn [elem_shape app]. rewrite lone_default by (apply negb_true_iff; exact Ee).
+      + destruct (elem_ok (PGroup es')) eqn:EO.
+        * cbn [elem_shape app]. rewrite lone_default by (apply negb_true_iff; exact EO).
+          cbn [eval_loop agree_loop] in *. apply andb_true_iff in AG. destruct AG as [AGe AG].
+          apply (IH (pacc ++ sposs (PGroup es'))); auto; [apply join_wf; auto | apply Step; intros b Hb; eapply eval_poss; eauto |].
+          eapply perm_trans; [apply join_perm_r; apply sem_append_join|].
+          rewrite J_join by (auto; apply sem_wf). rewrite (J_join m G) by (auto; apply eval_wf).
+          apply join_perm; [exact H | apply He; auto].
+        * (* the nested group { BIND(CONCAT(constants) AS ?v) } with ?v not in scope before: flattened into this group *)
+          cbn [orb] in Ee. destruct es' as [|e0 [|e1 r']]; try discriminate Ee; [|destruct e0; cbn in Ee; discriminate Ee]. destruct e0 as [| | | | |args v| |]; try discriminate Ee.
+          cbn [lone_bind_ok] in Ee. apply andb_true_iff in Ee. destruct Ee as [Hc Hv].
+          assert (Hc' : barg_vars args = []) by (destruct (barg_vars args); [reflexivity | discriminate]). clear Hc.
+          apply negb_true_iff in Hv.
+          rewrite fragB_PGroup in Fe. cbn [fragB_loop fragB] in Fe. apply andb_true_iff in Fe. destruct Fe as [Fe _].
+          apply andb_true_iff in Fe. destruct Fe as [Fe _].
+          assert (Hmv : lookup m v = None) by (eapply gv_free_lookup; eauto; left; auto).
+          assert (Hma : forall y, In y (barg_vars args) -> lookup m y = None) by (rewrite Hc'; intros y []).
+          assert (HGv : forall b, In b G -> lookup b v = None).
+          { intros b Hb. destruct (lookup b v) eqn:L; [|reflexivity]. apply (HB b Hb) in L. apply mem_var_in in L. congruence. }
+          assert (Ev : eval vw active (PGroup [PBind args v]) = [extend args v []]) by reflexivity.
+          change (elem_shape (PGroup [PBind args v])) with [GBindP args v].
+          cbn [app lower_loop eval_loop agree_loop] in *. apply andb_true_iff in AG. destruct AG as [_ AG].
+          rewrite Ev in *. rewrite (join_const_bind args v G Hc' WG HGv) in *.
+          apply (IH (pacc ++ [v])); auto.
+          -- apply all_wf_map; auto. intros; apply wf_insert; auto.
+          -- intros b Hb. apply in_map_iff in Hb. destruct Hb as (b0 & E & Hb0). subst b. intros x w L.
+             unfold bind_row in L. rewrite lookup_insert in L. apply in_or_app.
+             destruct (N.eqb_spec v x); [subst; right; left; auto | left; eapply HB; eauto].
+          -- cbn [sem]. rewrite <- !J_bind by (auto; apply sem_wf). apply Permutation_map. exact H.
+      + rewrite orb_false_r in Ee. cbn [elem_shape app]. rewrite lone_default by (apply negb_true_iff; exact Ee).
         cbn [eval_loop agree_loop] in *. apply andb_true_iff in AG. destruct AG as [AGe AG].
-        apply IH; auto; [apply join_wf; auto|].
+        apply (IH (pacc ++ sposs (PUnion gs))); auto; [apply join_wf; auto | apply Step; intros b Hb; eapply eval_poss; eauto |].
         eapply perm_trans; [apply join_perm_r; apply sem_append_join|].
         rewrite J_join by (auto; apply sem_wf). rewrite (J_join m G) by (auto; apply eval_wf).
         apply join_perm; [exact H | apply He; auto].
-      + cbn [elem_shape app]. rewrite lone_default by (apply negb_true_iff; exact Ee).
+      + rewrite orb_false_r in Ee. cbn [elem_shape app]. rewrite lone_default by (apply negb_true_iff; exact Ee).
         cbn [eval_loop agree_loop] in *. apply andb_true_iff in AG. destruct AG as [AGe AG].
-        apply IH; auto; [apply join_wf; auto|].
-        eapply perm_trans; [apply join_perm_r; apply sem_append_join|].
-        rewrite J_join by (auto; apply sem_wf). rewrite (J_join m G) by (auto; apply eval_wf).
-        apply join_perm; [exact H | apply He; auto].
-      + cbn [elem_shape app]. rewrite lone_default by (apply negb_true_iff; exact Ee).
-        cbn [eval_loop agree_loop] in *. apply andb_true_iff in AG. destruct AG as [AGe AG].
-        apply IH; auto; [apply join_wf; auto|].
+        apply (IH (pacc ++ sposs (PGraph g q))); auto; [apply join_wf; auto | apply Step; intros b Hb; eapply eval_poss; eauto |].
         eapply perm_trans; [apply join_perm_r; apply sem_append_join|].
         rewrite J_join by (auto; apply sem_wf). rewrite (J_join m G) by (auto; apply eval_wf).
         apply join_perm; [exact H | apply He; auto].
       + (* FILTER: deferred to the end of the group *)
         cbn [elem_shape app shape lower_loop eval_loop agree_loop] in *.
-        apply IH; auto. rewrite forallb_app, GF. cbn [forallb]. cbn [fragB] in Fe. rewrite Fe. reflexivity.
+        apply (IH (pacc ++ sposs (PFilter f))); auto.
+        * cbn [sposs]. rewrite app_nil_r. exact HB.
+        * rewrite forallb_app, GF. cbn [forallb]. cbn [fragB] in Fe. rewrite Fe. reflexivity.
       + (* BIND: extends what precedes it *)
         cbn [elem_shape app shape lower_loop eval_loop agree_loop] in *.
         apply andb_true_iff in AG. destruct AG as [AGb AG].
@@ -562,18 +801,19 @@ Section Bridge.
         cbn [fragB] in Fe.
         assert (Hv : lookup m v = None) by (eapply gv_free_lookup; eauto; left; auto).
         assert (Ha : forall y, In y (barg_vars args) -> lookup m y = None) by (intros; eapply gv_free_lookup; eauto; right; auto).
-        apply IH; auto.
+        apply (IH (pacc ++ sposs (PBind args v))); auto.
         * apply all_wf_map; auto. intros; apply wf_extend; auto.
+        * intros b Hb. apply in_map_iff in Hb. destruct Hb as (b0 & E & Hb0). subst b. cbn [sposs]. apply extend_bound. auto.
         * cbn [sem]. rewrite Emap. rewrite <- !J_bind by (auto; apply sem_wf). apply Permutation_map. exact H.
       + cbn [elem_shape app]. rewrite lone_default by reflexivity.
         cbn [eval_loop agree_loop] in *. apply andb_true_iff in AG. destruct AG as [AGe AG].
-        apply IH; auto; [apply join_wf; auto|].
+        apply (IH (pacc ++ sposs (PValues vs rows))); auto; [apply join_wf; auto | apply Step; intros b Hb; eapply eval_poss; eauto |].
         eapply perm_trans; [apply join_perm_r; apply sem_append_join|].
         rewrite J_join by (auto; apply sem_wf). rewrite (J_join m G) by (auto; apply eval_wf).
         apply join_perm; [exact H | apply He; auto].
-      + cbn [elem_shape app]. rewrite lone_default by (apply negb_true_iff; exact Ee).
+      + rewrite orb_false_r in Ee. cbn [elem_shape app]. rewrite lone_default by (apply negb_true_iff; exact Ee).
         cbn [eval_loop agree_loop] in *. apply andb_true_iff in AG. destruct AG as [AGe AG].
-        apply IH; auto; [apply join_wf; auto|].
+        apply (IH (pacc ++ sposs (PSub s))); auto; [apply join_wf; auto | apply Step; intros b Hb; eapply eval_poss; eauto |].
         eapply perm_trans; [apply join_perm_r; apply sem_append_join|].
         rewrite J_join by (auto; apply sem_wf). rewrite (J_join m G) by (auto; apply eval_wf).
         apply join_perm; [exact H | apply He; auto].
@@ -589,12 +829,11 @@ Section BridgeMain.
   Lemma unit_rows_wf : all_wf [@nil (var * term)].
   Proof. constructor; [exact I | constructor]. Qed.
 
-  Lemma simple_sel_spec : forall pr gb lim, simple_sel pr gb lim = true ->
-    exists items, pr = Some items /\ gb = [] /\ lim = None /\ aggs_of pr = [] /\
-                  proj_vars pr = Some (map (fun i => match i with PVar x => x | PAgg _ _ al => al end) items).
+  Lemma simple_sel_spec : forall pr gb lim, simple_sel pr gb lim = true -> gb = [] /\ lim = None /\ aggs_of pr = [].
   Proof.
-    intros pr gb lim H. unfold simple_sel in H. destruct pr as [items|]; [|discriminate].
-    destruct gb; [|discriminate]. destruct lim; [discriminate|]. exists items. repeat split; auto.
+    intros pr gb lim H. unfold simple_sel in H.
+    destruct gb; [|destruct pr; discriminate]. destruct lim; [destruct pr; discriminate|]. repeat split.
+    destruct pr as [items|]; [|reflexivity].
     cbn [aggs_of]. induction items as [|[x|k x al] r IH]; cbn in *; auto; discriminate.
   Qed.
 
@@ -612,15 +851,17 @@ Section BridgeMain.
       assert (E2 : eval (mk_view ds from from_named) active (PBgp tps) ≡ₚ eval_loop (mk_view ds from from_named) active [PBgp tps] [[]] []).
       { cbn [eval_loop forallb]. cbn [eval]. rewrite filter_true_id. rewrite join_unit_l by apply eval_bgp_wf. auto. }
       eapply perm_trans; [|apply join_perm_r; apply Permutation_sym; exact E2].
-      apply (loop_lemma ds from from_named OK scope active m SR [PBgp tps]); auto.
-      + constructor; [exact I | constructor].
+      assert (HP : Forall (PB' ds from from_named) [PBgp tps]) by (constructor; [exact I | constructor]).
+      apply (loop_lemma ds from from_named OK scope active m SR [PBgp tps] HP []); auto.
       + apply unit_rows_wf.
+      + intros b [E|[]]; subst; apply bound_in_nil.
     - (* group *)
       rewrite shape_PGroup, lower_collapse, eval_PGroup.
       rewrite fragB_PGroup in FR. rewrite agree_PGroup in AG.
-      apply (loop_lemma ds from from_named OK scope active m SR es); auto.
-      + eapply Forall_impl; [|exact H]. intros e He. destruct e; cbn; auto.
+      assert (HP : Forall (PB' ds from from_named) es) by (eapply Forall_impl; [|exact H]; intros e He; destruct e; cbn; auto).
+      apply (loop_lemma ds from from_named OK scope active m SR es HP []); auto.
       + apply unit_rows_wf.
+      + intros b [E|[]]; subst; apply bound_in_nil.
     - (* union *)
       rewrite fragB_PUnion in FR. rewrite agree_PUnion in AG. rewrite eval_PUnion.
       assert (G : join [m] (flat_map (fun g => sem ds (mk_eview ds from from_named) active (lower (shape g) scope)) gs)
@@ -674,19 +915,28 @@ Section BridgeMain.
       assert (Em : m = []).
       { destruct SR; auto. cbn in Fgv. discriminate. }
       subst m. apply join_perm_r.
-      destruct (simple_sel_spec _ _ _ Fs) as (items & E1 & E2 & E3 & E4 & E5). subst pr gb lim.
+      destruct (simple_sel_spec _ _ _ Fs) as (E2 & E3 & E4). subst gb lim.
       assert (IH : sem ds (mk_eview ds from from_named) active (lower (shape q) scope) ≡ₚ eval (mk_view ds from from_named) active q).
       { rewrite <- (join_unit_l (sem _ _ _ _)) by apply sem_wf. rewrite <- (join_unit_l (eval _ _ _)) by apply eval_wf.
         apply (IHq scope active []); auto.
         destruct SR; cbn in *; auto; try constructor; auto. discriminate. }
       unfold finalize_subquery, eaggregate, modifiers, modifiers_nolimit, aggregate, apply_limit.
-      cbn [ss_proj ss_distinct ss_group ss_order ss_limit]. rewrite E4, E5. cbn [columns].
-      assert (P : map (restrict (map (fun i => match i with PVar x => x | PAgg _ _ al => al end) items))
-                      (esort ob (sem ds (mk_eview ds from from_named) active (lower (shape q) scope)))
-                  ≡ₚ map (restrict (map (fun i => match i with PVar x => x | PAgg _ _ al => al end) items))
-                      (order_rows ob (eval (mk_view ds from from_named) active q))).
-      { apply Permutation_map. eapply perm_trans; [apply esort_perm|]. eapply perm_trans; [exact IH|].
-        apply Permutation_sym. apply order_rows_perm. }
-      destruct d; [apply dedup_perm|]; exact P.
+      cbn [ss_proj ss_distinct ss_group ss_order ss_limit]. rewrite E4.
+      assert (P0 : esort ob (sem ds (mk_eview ds from from_named) active (lower (shape q) scope))
+                   ≡ₚ order_rows ob (eval (mk_view ds from from_named) active q)).
+      { eapply perm_trans; [apply esort_perm|]. eapply perm_trans; [exact IH|]. apply Permutation_sym. apply order_rows_perm. }
+      destruct pr as [items|]; cbn [proj_vars option_map columns].
+      + assert (P : map (restrict (map (fun i => match i with PVar x => x | PAgg _ _ al => al end) items))
+                        (esort ob (sem ds (mk_eview ds from from_named) active (lower (shape q) scope)))
+                    ≡ₚ map (restrict (map (fun i => match i with PVar x => x | PAgg _ _ al => al end) items))
+                        (order_rows ob (eval (mk_view ds from from_named) active q))) by (apply Permutation_map; exact P0).
+        destruct d; [apply dedup_perm|]; exact P.
+      + (* SELECT star: the engine keeps the rows as they are, the algebra projects on all the variables of the pattern *)
+        assert (E : map (restrict (star_cols q [])) (order_rows ob (eval (mk_view ds from from_named) active q))
+                    = order_rows ob (eval (mk_view ds from from_named) active q)).
+        { rewrite <- (map_id (order_rows ob _)) at 2. apply map_ext_in. intros r Hr. apply in_order_rows in Hr.
+          apply restrict_id; [eapply all_wf_in; [apply eval_wf | exact Hr]|].
+          intros x t L. apply sposs_star_cols. right. eapply eval_poss; eauto. }
+        rewrite E. destruct d; [apply dedup_perm|]; exact P0.
   Qed.
 End BridgeMain.
